@@ -171,6 +171,7 @@ type Step struct {
 	Topic   string
 	Desc    string          // which honest message / corruption
 	Variant string          // structural tag used to identify known findings
+	Bnd     string          // boundary-value tag: which ordered comparison of the tables the message sits on, and on which side
 	Cond    map[string]bool // truth value of every cache-independent condition of the topic's table
 	Key     map[string][]string
 	Now     time.Duration
@@ -195,6 +196,7 @@ type Event struct {
 	Topic   string              `json:"topic"`
 	Desc    string              `json:"desc"`
 	Variant string              `json:"variant"`
+	Bnd     string              `json:"bnd"`
 	Cond    map[string]int      `json:"cond"`
 	Key     map[string][]string `json:"key"`
 	Pre     map[string]int      `json:"pre"`
@@ -219,7 +221,7 @@ func runHistory(v *View, h *History, hi int) []Event {
 		Key: map[string][]string{"_": {}}, Pre: map[string]int{"_": 0}, Marks: [][2]string{}, Seens: [][2]string{}, Out: "ok"}}
 	b := NewBackend(v)
 	for i, st := range h.Steps {
-		ev := Event{Ev: "Msg", H: hi, I: i, Scen: h.Scen, Name: h.Name, Topic: st.Topic, Desc: st.Desc, Variant: st.Variant,
+		ev := Event{Ev: "Msg", H: hi, I: i, Scen: h.Scen, Name: h.Name, Topic: st.Topic, Desc: st.Desc, Variant: st.Variant, Bnd: bndOf(st),
 			Cond: map[string]int{}, Key: map[string][]string{}, Pre: map[string]int{}, NowMs: int(st.Now / time.Millisecond)}
 		for k, x := range st.Cond {
 			ev.Cond[k] = b2i(x)
